@@ -181,6 +181,18 @@ theorem C11_lib1_raw_check_rejects_known_damage :
       ["metadata-of-live-tracks"] := by
   decide +kernel
 
+/-- non-vacuity of the theorems that assume `LibInv` (`…_step_preserves_invariant`, `…_foreign_key_check_clean`,
+`…_failed_call_changes_nothing`): the created library of every version satisfies it, and a failing call exists (add_track of
+a track that does not exist, on a live crate: `track_deleted`). -/
+example : ∀ s, LibInv s (Lib1.empty s [77] [80] []) := fun s => libInv_empty s _ _ _
+
+example :
+    let o : FOps := ⟨fun _ => 0, fun n => if n = 0 then 0 else F64.one, fun _ _ => 0, fun b => b⟩
+    let L := run o .s1_9_1 (Lib1.empty .s1_9_1 [77] [80] []) [.createRootCrate [97]]
+    Res.isOk (step o .s1_9_1 L (.addTrack 1 5)).2 = false ∧ Res.isOk (step o .s1_9_1 L (.set 5 .title none)).2 = false ∧
+    Res.isOk (step o .s1_9_1 L (.createTrack Snap.empty)).2 = false := by
+  decide +kernel
+
 /-! ### every stored performance blob decodes -/
 
 /-- "The stored blob of this column decodes": the bytes the library's encoder produces for the stored value exist, and
@@ -230,5 +242,14 @@ theorem C11_lib1_stored_blobs_decode (L : Lib1) (h : BlobsFix L) (id : Int) (r :
 theorem C11_lib1_stored_blobs_decode_reachable (o : FOps) (s : VSchema) (um up dir : Bytes) (cs : List Call) :
     BlobsFix (run o s (Lib1.empty s um up dir) cs) :=
   blobsFix_run o cs (libInv_empty s um up dir) (blobsFix_empty s um up dir)
+
+/-- non-vacuity of `C11_lib1_stored_blobs_decode`: a reachable state with a stored PerformanceData row whose columns are
+within the size bounds (so all six conclusions apply). -/
+example :
+    let o : FOps := ⟨fun _ => 0, fun n => if n = 0 then 0 else F64.one, fun _ _ => 0, fun b => b⟩
+    let L := run o .s1_15_0 (Lib1.empty .s1_15_0 [77] [80] []) [.createTrack { Snap.empty with relativePath := some [98] }]
+    ((L.tr.rows 1).bind (·.perf)).isSome = true ∧
+    (((L.tr.rows 1).bind (·.perf)).map fun p => (p.loops.length, p.hires.entries.length, p.overview.entries.length)) = some (8, 0, 0) := by
+  decide +kernel
 
 end EngineModel.Properties.C11Lib1
